@@ -3,6 +3,72 @@ From NV.Common Require Import Base.
 From NV.C16 Require Import Model.
 Open Scope N_scope.
 
+Arguments N.add : simpl never.
+Arguments N.sub : simpl never.
+Arguments N.mul : simpl never.
+Arguments N.eqb : simpl never.
+Arguments N.ltb : simpl never.
+Arguments N.leb : simpl never.
+Arguments N.div : simpl never.
+Arguments N.modulo : simpl never.
+Arguments N.pow : simpl never.
+
+(* ------------------------------------------------------------------ generic list / byte facts *)
+Lemma bytes_eqb_spec a b : bytes_eqb a b = true <-> a = b.
+Proof. apply list_eqb_spec. intros; apply N.eqb_eq. Qed.
+Lemma bytes_eqb_refl a : bytes_eqb a a = true.
+Proof. apply bytes_eqb_spec; reflexivity. Qed.
+Lemma bytes_eqb_neq a b : bytes_eqb a b = false <-> a <> b.
+Proof.
+  split; intros H.
+  - intros E. apply bytes_eqb_spec in E. congruence.
+  - destruct (bytes_eqb a b) eqn:E; [apply bytes_eqb_spec in E; contradiction|reflexivity].
+Qed.
+
+Lemma app_inj_len {A} (a a' r r' : list A) :
+  length a = length a' -> a ++ r = a' ++ r' -> a = a' /\ r = r'.
+Proof.
+  revert a'. induction a as [|x a IH]; intros [|y a'] L E; cbn in *; try discriminate.
+  - split; [reflexivity|exact E].
+  - injection E as -> E. injection L as L. destruct (IH a' L E) as [-> ->]. split; reflexivity.
+Qed.
+
+Lemma le_bytes_length w x : length (le_bytes w x) = w.
+Proof. revert x; induction w; intros; cbn; [reflexivity|rewrite IHw; reflexivity]. Qed.
+
+Lemma le_bytes_inj w : forall x y, x < 256 ^ N.of_nat w -> y < 256 ^ N.of_nat w ->
+  le_bytes w x = le_bytes w y -> x = y.
+Proof.
+  induction w as [|w IH]; intros x y Hx Hy E.
+  - cbn in Hx, Hy. change (256 ^ 0) with 1 in *. lia.
+  - cbn [le_bytes] in E. injection E as E0 E1.
+    rewrite Nat2N.inj_succ, N.pow_succ_r' in Hx, Hy.
+    assert (x / 256 = y / 256) as Hd.
+    { apply IH; [apply N.div_lt_upper_bound; lia|apply N.div_lt_upper_bound; lia|exact E1]. }
+    rewrite (N.div_mod x 256), (N.div_mod y 256) by lia. rewrite Hd, E0. reflexivity.
+Qed.
+
+Definition U64 : N := 256 ^ 8.
+Lemma le64_inj x y : x < U64 -> y < U64 -> le64 x = le64 y -> x = y.
+Proof. apply (le_bytes_inj 8). Qed.
+Definition U16 : N := 256 ^ 2.
+Lemma le16_inj x y : x < U16 -> y < U16 -> le16 x = le16 y -> x = y.
+Proof. apply (le_bytes_inj 2). Qed.
+
+Lemma codes_inj : forall a b, Forall (fun x => x < U16) a -> Forall (fun x => x < U16) b ->
+  flat_map le16 a = flat_map le16 b -> a = b.
+Proof.
+  induction a as [|x a IH]; intros [|y b] Ha Hb E; cbn [flat_map] in E.
+  - reflexivity.
+  - exfalso. apply (f_equal (@length N)) in E. rewrite app_length in E.
+    unfold le16 in E. rewrite le_bytes_length in E. cbn in E. lia.
+  - exfalso. apply (f_equal (@length N)) in E. rewrite app_length in E.
+    unfold le16 in E. rewrite le_bytes_length in E. cbn in E. lia.
+  - inversion Ha; inversion Hb; subst.
+    apply app_inj_len in E; [|unfold le16; rewrite !le_bytes_length; reflexivity].
+    destruct E as [E1 E2]. apply le16_inj in E1; auto. subst. f_equal. apply IH; auto.
+Qed.
+
 Section Proofs.
 Variable Hf : bytes -> bytes.
 Variable ser_tx : tx -> bytes.
@@ -12,9 +78,602 @@ Variable sign : bytes -> bytes -> bytes.
 Variable SR : store -> bytes.
 Variable fl : flags.
 
-(* replay is a function of (store image, memory, block list): two replicas agree *)
-Lemma replay_deterministic : forall sto1 m1 sto2 m2 bs1 bs2,
-  sto1 = sto2 -> m1 = m2 -> bs1 = bs2 ->
-  replay Hf ser_tx registered sig_valid SR fl sto1 m1 bs1 = replay Hf ser_tx registered sig_valid SR fl sto2 m2 bs2.
-Proof. intros; subst; reflexivity. Qed.
+Notation hhash := (hhash Hf).
+Notation tx_root_ok := (tx_root_ok Hf ser_tx).
+Notation compute_tx_root := (compute_tx_root Hf ser_tx).
+Notation verify_sig := (verify_sig registered sig_valid).
+Notation block_follows := (block_follows Hf ser_tx).
+Notation verify_from := (verify_from Hf ser_tx registered sig_valid).
+Notation verify_chain := (verify_chain Hf ser_tx registered sig_valid fl).
+Notation append := (append Hf ser_tx registered sig_valid fl).
+
+(* ------------------------------------------------------------------ verify_chain = every link checks *)
+Definition check1 (b p : block) : N :=
+  let e := block_follows b p in if negb (N.eqb e 0) then e else verify_sig (b_hdr b).
+
+Lemma verify_from_S bm prev h n :
+  verify_from bm prev h (S n) =
+  match aget bm h with
+  | None => E_NOTFOUND
+  | Some b => if negb (N.eqb (check1 b prev) 0) then check1 b prev else verify_from bm b (h + 1) n
+  end.
+Proof.
+  cbn [Model.verify_from]. destruct (aget bm h) as [b|]; [|reflexivity].
+  unfold check1. destruct (N.eqb (block_follows b prev) 0) eqn:E; cbn [negb].
+  - reflexivity.
+  - rewrite E. reflexivity.
+Qed.
+
+Definition prevof (bm : blockmap) (prev : block) (h : N) (j : nat) : option block :=
+  match j with O => Some prev | S j' => aget bm (h + N.of_nat j') end.
+
+Lemma verify_from_ok bm : forall n prev h,
+  verify_from bm prev h n = 0 <->
+  (forall j, (j < n)%nat -> exists b p, aget bm (h + N.of_nat j) = Some b /\ prevof bm prev h j = Some p /\ check1 b p = 0).
+Proof.
+  induction n as [|n IH]; intros prev h.
+  - split; [intros _ j Hj; lia|reflexivity].
+  - rewrite verify_from_S. split.
+    + intros Hv j Hj. destruct (aget bm h) as [b|] eqn:Eb; [|discriminate].
+      destruct (N.eqb (check1 b prev) 0) eqn:Ec; cbn [negb] in Hv.
+      2:{ rewrite Hv in Ec. discriminate. }
+      apply N.eqb_eq in Ec.
+      destruct j as [|j].
+      * exists b, prev. rewrite N.add_0_r. cbn. auto.
+      * destruct (proj1 (IH b (h + 1)) Hv j ltac:(lia)) as (b' & p & E1 & E2 & E3).
+        exists b', p. split; [|split; [|exact E3]].
+        -- rewrite <- E1. f_equal. lia.
+        -- destruct j as [|j']; cbn [prevof] in E2 |- *.
+           ++ rewrite N.add_0_r. congruence.
+           ++ rewrite <- E2. f_equal. lia.
+    + intros Hall.
+      destruct (Hall O ltac:(lia)) as (b & p & E1 & E2 & E3).
+      rewrite N.add_0_r in E1. cbn in E2. injection E2 as <-. rewrite E1, E3. cbn.
+      apply IH. intros j Hj.
+      destruct (Hall (S j) ltac:(lia)) as (b' & p' & F1 & F2 & F3).
+      exists b', p'. split; [|split; [|exact F3]].
+      * rewrite <- F1. f_equal. lia.
+      * destruct j as [|j']; cbn [prevof] in F2 |- *.
+        -- rewrite N.add_0_r in F2. congruence.
+        -- rewrite <- F2. f_equal. lia.
+Qed.
+
+(* the declarative reading of verify_chain(height n) *)
+Definition Linked (bm : blockmap) (n : N) : Prop :=
+  exists g, aget bm 0 = Some g /\ (f_genesis_txroot fl = true -> tx_root_ok g = true) /\
+  forall k, 1 <= k <= n -> exists b p, aget bm k = Some b /\ aget bm (k - 1) = Some p /\ check1 b p = 0.
+
+Lemma verify_chain_iff bm n : 0 < n -> (verify_chain bm n = 0 <-> Linked bm n).
+Proof.
+  intros Hn. unfold Model.verify_chain. replace (N.eqb n 0) with false by (symmetry; apply N.eqb_neq; lia).
+  split.
+  - destruct (aget bm 0) as [g|] eqn:Eg; [|discriminate].
+    destruct (f_genesis_txroot fl && negb (tx_root_ok g)) eqn:Egen; [discriminate|].
+    intros Hv. exists g. split; [exact Eg|]. split.
+    + intros Hf1. rewrite Hf1 in Egen. cbn in Egen. destruct (tx_root_ok g); [reflexivity|discriminate].
+    + intros k Hk. rewrite verify_from_ok in Hv.
+      destruct (Hv (N.to_nat (k - 1)) ltac:(lia)) as (b & p & E1 & E2 & E3).
+      exists b, p. split; [|split; [|exact E3]].
+      * rewrite <- E1. f_equal. lia.
+      * destruct (N.to_nat (k - 1)) as [|j] eqn:Ej; cbn [prevof] in E2.
+        -- replace (k - 1) with 0 by lia. congruence.
+        -- rewrite <- E2. f_equal. lia.
+  - intros (g & Eg & Hgen & Hall). rewrite Eg.
+    destruct (f_genesis_txroot fl) eqn:Efl; cbn [andb].
+    + rewrite (Hgen eq_refl). cbn [negb]. apply verify_from_ok. intros j Hj.
+      destruct (Hall (1 + N.of_nat j) ltac:(lia)) as (b & p & E1 & E2 & E3).
+      exists b, p. split; [exact E1|]. split; [|exact E3].
+      destruct j as [|j']; cbn [prevof].
+      * replace (1 + N.of_nat 0 - 1) with 0 in E2 by lia. congruence.
+      * rewrite <- E2. f_equal. lia.
+    + apply verify_from_ok. intros j Hj.
+      destruct (Hall (1 + N.of_nat j) ltac:(lia)) as (b & p & E1 & E2 & E3).
+      exists b, p. split; [exact E1|]. split; [|exact E3].
+      destruct j as [|j']; cbn [prevof].
+      * replace (1 + N.of_nat 0 - 1) with 0 in E2 by lia. congruence.
+      * rewrite <- E2. f_equal. lia.
+Qed.
+
+Lemma check1_ok b p : check1 b p = 0 <-> block_follows b p = 0 /\ verify_sig (b_hdr b) = 0.
+Proof.
+  unfold check1. destruct (N.eqb (block_follows b p) 0) eqn:E; cbn [negb].
+  - apply N.eqb_eq in E. tauto.
+  - apply N.eqb_neq in E. split; [intros; contradiction|tauto].
+Qed.
+
+Lemma block_follows_ok b p : block_follows b p = 0 <->
+  h_height (b_hdr b) = h_height (b_hdr p) + 1 /\ h_prev (b_hdr b) = hhash (b_hdr p) /\
+  tx_root_ok b = true /\ h_ts (b_hdr p) <= h_ts (b_hdr b).
+Proof.
+  unfold Model.block_follows, E_HEIGHT, E_HASH, E_TXROOT, E_TS.
+  destruct (N.eqb_spec (h_height (b_hdr b)) (h_height (b_hdr p) + 1)) as [E1|E1]; cbn [negb].
+  2:{ split; [discriminate|tauto]. }
+  destruct (bytes_eqb (h_prev (b_hdr b)) (hhash (b_hdr p))) eqn:E2; cbn [negb].
+  2:{ apply bytes_eqb_neq in E2. split; [discriminate|tauto]. }
+  apply bytes_eqb_spec in E2.
+  destruct (tx_root_ok b) eqn:E3; cbn [negb].
+  2:{ split; [discriminate|intros (_ & _ & X & _); discriminate]. }
+  destruct (N.ltb_spec (h_ts (b_hdr b)) (h_ts (b_hdr p))) as [E4|E4].
+  - split; [discriminate|intros (_ & _ & _ & X); lia].
+  - split; auto.
+Qed.
+
+Lemma verify_sig_ok h : verify_sig h = 0 <->
+  h_sig h <> [] /\ registered (h_proposer h) = true /\ sig_valid (h_proposer h) (pre h) (h_sig h) = true.
+Proof.
+  unfold Model.verify_sig, E_NOSIG, E_UNKNOWN, E_BADSIG.
+  destruct (h_sig h) as [|s0 sr] eqn:Es; cbn [is_nil].
+  - split; [discriminate|intros (X & _); congruence].
+  - destruct (registered (h_proposer h)); cbn [negb]; [|split; [discriminate|intros (_ & X & _); discriminate]].
+    destruct (sig_valid (h_proposer h) (pre h) (s0 :: sr)); cbn [negb].
+    + split; [intros _; repeat split; congruence|reflexivity].
+    + split; [discriminate|intros (_ & _ & X); discriminate].
+Qed.
+
+(* ------------------------------------------------------------------ append keeps the chain verifiable *)
+Definition Inv (bm : blockmap) (m : cmem) : Prop :=
+  Linked bm (m_height m)
+  /\ (exists t, aget bm (m_height m) = Some t /\ m_tip m = hhash (b_hdr t))
+  /\ (forall k b, k <= m_height m -> aget bm k = Some b -> h_height (b_hdr b) = k).
+
+Lemma Inv_verify bm m : Inv bm m -> verify_chain bm (m_height m) = 0.
+Proof.
+  intros (HL & _ & _). destruct (N.eq_dec (m_height m) 0) as [E|E].
+  - unfold Model.verify_chain. rewrite E. reflexivity.
+  - apply verify_chain_iff; [lia|exact HL].
+Qed.
+
+Lemma append_inr bm m b0 bm' m' :
+  append bm m b0 = inr (bm', m') ->
+  exists b, bm' = aset bm (m_height m + 1) b /\ m' = CM (m_height m + 1) (hhash (b_hdr b))
+    /\ h_height (b_hdr b) = m_height m + 1 /\ h_prev (b_hdr b) = m_tip m /\ tx_root_ok b = true
+    /\ b_txs b = b_txs b0 /\ b_sigs b = b_sigs b0 /\ h_ts (b_hdr b) = h_ts (b_hdr b0)
+    /\ (f_append_ts fl = true -> forall t, aget bm (m_height m) = Some t -> h_ts (b_hdr t) <= h_ts (b_hdr b))
+    /\ (f_append_sig_all fl = true \/ f_sig_min_height fl < m_height m + 1 -> verify_sig (b_hdr b) = 0).
+Proof.
+  unfold Model.append.
+  destruct (N.eqb_spec (h_height (b_hdr b0)) (m_height m + 1)) as [Eh|Eh]; cbn [negb]; [|discriminate].
+  destruct (bytes_eqb (h_prev (b_hdr b0)) (m_tip m)) eqn:Ep; cbn [negb]; [|discriminate].
+  apply bytes_eqb_spec in Ep.
+  destruct (f_append_ts fl && match aget bm (m_height m) with Some p => N.ltb (h_ts (b_hdr b0)) (h_ts (b_hdr p)) | None => false end) eqn:Ets; [discriminate|].
+  set (b := if bytes_eqb (h_txroot (b_hdr b0)) zeros32 && negb (is_nil (b_txs b0))
+            then with_hdr (set_txroot (compute_tx_root (b_txs b0))) b0 else b0).
+  assert (Hb : h_height (b_hdr b) = h_height (b_hdr b0) /\ h_prev (b_hdr b) = h_prev (b_hdr b0)
+               /\ b_txs b = b_txs b0 /\ b_sigs b = b_sigs b0 /\ h_ts (b_hdr b) = h_ts (b_hdr b0)).
+  { subst b. destruct (bytes_eqb (h_txroot (b_hdr b0)) zeros32 && negb (is_nil (b_txs b0))); cbn; auto. }
+  destruct Hb as (Hb1 & Hb2 & Hb3 & Hb4 & Hb5).
+  destruct (tx_root_ok b) eqn:Etr; cbn [negb]; [|discriminate].
+  destruct (N.ltb (f_sig_min_height fl) (m_height m + 1) && is_nil (h_sig (b_hdr b))) eqn:Eun; [discriminate|].
+  destruct (N.eqb (if f_append_sig_all fl || N.ltb (f_sig_min_height fl) (m_height m + 1) then verify_sig (b_hdr b) else 0) 0) eqn:Esg;
+    cbn [negb]; [|discriminate].
+  intros E. injection E as <- <-. exists b. repeat split; try congruence.
+  - intros Hts t Et. rewrite Hts, Et in Ets. cbn [andb] in Ets. apply N.ltb_ge in Ets. rewrite Hb5. exact Ets.
+  - intros Hg. apply N.eqb_eq in Esg.
+    destruct Hg as [Hg|Hg].
+    + rewrite Hg in Esg. cbn [orb] in Esg. exact Esg.
+    + apply N.ltb_lt in Hg. rewrite Hg, Bool.orb_true_r in Esg. exact Esg.
+Qed.
+
+Lemma append_inl bm m b0 e : append bm m b0 = inl e -> True.
+Proof. trivial. Qed.
+
+Lemma append_preserves bm m b0 bm' m' :
+  Inv bm m -> append bm m b0 = inr (bm', m') ->
+  (f_append_ts fl = true \/ forall t, aget bm (m_height m) = Some t -> h_ts (b_hdr t) <= h_ts (b_hdr b0)) ->
+  (f_append_sig_all fl = true \/ f_sig_min_height fl < m_height m + 1 \/
+   forall b, aget bm' (m_height m + 1) = Some b -> verify_sig (b_hdr b) = 0) ->
+  Inv bm' m'.
+Proof.
+  intros (HL & (t & Et & Etip) & HH) Ha Gts Gsig.
+  destruct (append_inr _ _ _ _ _ Ha) as (b & -> & -> & Bh & Bp & Btr & Btx & Bsg & Bts & Bt & Bs).
+  cbn [m_height m_tip].
+  assert (Hget : forall k, k <= m_height m -> aget (aset bm (m_height m + 1) b) k = aget bm k).
+  { intros k Hk. rewrite aget_aset. destruct (N.eqb_spec (m_height m + 1) k); [lia|reflexivity]. }
+  assert (Hnew : aget (aset bm (m_height m + 1) b) (m_height m + 1) = Some b).
+  { rewrite aget_aset, N.eqb_refl. reflexivity. }
+  split; [|split].
+  - destruct HL as (g & Eg & Hgen & Hall). exists g. split; [rewrite Hget by lia; exact Eg|]. split; [exact Hgen|].
+    intros k Hk. cbn [m_height] in Hk. destruct (N.eq_dec k (m_height m + 1)) as [->|Hne].
+    + exists b, t. split; [exact Hnew|]. split.
+      * replace (m_height m + 1 - 1) with (m_height m) by lia. rewrite Hget by lia. exact Et.
+      * apply check1_ok. split.
+        -- apply block_follows_ok. repeat split.
+           ++ rewrite Bh. rewrite (HH (m_height m) t ltac:(lia) Et). reflexivity.
+           ++ rewrite Bp. exact Etip.
+           ++ exact Btr.
+           ++ destruct Gts as [G|G]; [apply Bt; auto|rewrite Bts; apply G; exact Et].
+        -- destruct Gsig as [G|[G|G]]; [apply Bs; auto|apply Bs; auto|apply G; exact Hnew].
+    + destruct (Hall k ltac:(lia)) as (bk & pk & E1 & E2 & E3).
+      exists bk, pk. rewrite !Hget by lia. auto.
+  - exists b. split; [exact Hnew|reflexivity].
+  - intros k bk Hk Ek. cbn [m_height] in Hk. destruct (N.eq_dec k (m_height m + 1)) as [->|Hne].
+    + rewrite Hnew in Ek. injection Ek as <-. exact Bh.
+    + rewrite Hget in Ek by lia. apply (HH k bk); [lia|exact Ek].
+Qed.
+
+(* chains built through the public interface: a genesis record, then successful appends *)
+Inductive built : blockmap -> cmem -> Prop :=
+| built_init g :
+    tx_root_ok g = true -> h_height (b_hdr g) = 0 -> built [(0, g)] (CM 0 (hhash (b_hdr g)))
+| built_append bm m b0 bm' m' :
+    built bm m -> append bm m b0 = inr (bm', m') ->
+    (f_append_ts fl = true \/ forall t, aget bm (m_height m) = Some t -> h_ts (b_hdr t) <= h_ts (b_hdr b0)) ->
+    (f_append_sig_all fl = true \/ f_sig_min_height fl < m_height m + 1 \/
+     forall b, aget bm' (m_height m + 1) = Some b -> verify_sig (b_hdr b) = 0) ->
+    built bm' m'.
+
+Lemma built_Inv bm m : built bm m -> Inv bm m.
+Proof.
+  induction 1 as [g Hg Hh|bm m b0 bm' m' _ IH Ha G1 G2].
+  - cbn [m_height m_tip]. split; [|split].
+    + exists g. cbn. split; [reflexivity|]. split; [auto|]. intros k Hk. lia.
+    + exists g. cbn. auto.
+    + intros k b Hk. cbn. destruct (N.eqb_spec 0 k); [|discriminate]. intros E; injection E as <-. lia.
+  - eapply append_preserves; eauto.
+Qed.
+
+Theorem append_verifies bm m : built bm m -> verify_chain bm (m_height m) = 0.
+Proof. intros Hb. apply Inv_verify, built_Inv, Hb. Qed.
+
+
+(* ------------------------------------------------------------------ pre-image layout *)
+Definition WellSized (h : header) : Prop :=
+  h_height h < U64 /\ h_ts h < U64 /\ Forall (fun x => x < U16) (h_codes h).
+
+Lemma pre_height_inj h h' : h_height h < U64 -> h_height h' < U64 -> pre h = pre h' -> h_height h = h_height h'.
+Proof.
+  intros B1 B2 E. unfold pre in E.
+  apply app_inj_len in E; [|unfold le64; rewrite !le_bytes_length; reflexivity].
+  destruct E as [E _]. apply le64_inj; assumption.
+Qed.
+
+(* exactly one hashed header field differs *)
+Inductive mut1 (h : header) : header -> Prop :=
+| mut_height v : v <> h_height h -> v < U64 -> mut1 h (set_height v h)
+| mut_prev v : v <> h_prev h -> mut1 h (set_prev v h)
+| mut_txroot v : v <> h_txroot h -> mut1 h (set_txroot v h)
+| mut_sroot v : v <> h_sroot h -> mut1 h (set_sroot v h)
+| mut_emb v : v <> h_emb h -> mut1 h (set_emb v h)
+| mut_codes v : v <> h_codes h -> Forall (fun x => x < U16) v -> mut1 h (set_codes v h)
+| mut_ts v : v <> h_ts h -> v < U64 -> mut1 h (set_ts v h)
+| mut_proposer v : v <> h_proposer h -> mut1 h (set_proposer v h).
+
+Lemma app_mid_inj {A} (a x y r : list A) : a ++ x ++ r = a ++ y ++ r -> x = y.
+Proof. intros E. apply app_inv_head in E. apply app_inv_tail in E. exact E. Qed.
+
+(* the concrete byte concatenation is injective in each single field *)
+Lemma mut1_pre_neq h h' : WellSized h -> mut1 h h' -> pre h' <> pre h.
+Proof.
+  intros (W1 & W2 & W3) Hm E. destruct Hm as [v Hv Hb|v Hv|v Hv|v Hv|v Hv|v Hv Hb|v Hv Hb|v Hv]; unfold pre in E;
+    cbn [set_height set_prev set_txroot set_sroot set_emb set_codes set_ts set_proposer
+         h_height h_prev h_txroot h_sroot h_emb h_codes h_ts h_proposer] in E.
+  - apply app_inj_len in E; [|unfold le64; rewrite !le_bytes_length; reflexivity].
+    destruct E as [E _]. apply le64_inj in E; auto.
+  - apply app_mid_inj in E. auto.
+  - apply app_inv_head in E. apply app_mid_inj in E. auto.
+  - do 2 apply app_inv_head in E. apply app_mid_inj in E. auto.
+  - do 3 apply app_inv_head in E. apply app_mid_inj in E. auto.
+  - do 4 apply app_inv_head in E. apply app_mid_inj in E. apply codes_inj in E; auto.
+  - do 5 apply app_inv_head in E. apply app_mid_inj in E. apply le64_inj in E; auto.
+  - do 7 apply app_inv_head in E. auto.
+Qed.
+
+(* companion: ACROSS fields the unframed concatenation is not injective *)
+Lemma multi_field_preimage_collision : exists h h', h <> h' /\ pre h = pre h'.
+Proof.
+  exists (Hd 1 [] [] [] [7; 0] [] 5 [9] []), (Hd 1 [] [] [] [] [7] 5 [9] []).
+  split; [discriminate|reflexivity].
+Qed.
+
+(* ------------------------------------------------------------------ tamper evidence *)
+Definition entry (b : block) : bytes * bytes * bytes :=
+  (h_proposer (b_hdr b), pre (b_hdr b), h_sig (b_hdr b)).
+Definition blocks_of (bm : blockmap) (n : N) : list block :=
+  flat_map (fun k => match aget bm k with Some b => [b] | None => [] end) (N_seq_from 1 (N.to_nat n)).
+(* everything the validators signed while this chain was built: (signer, message, signature) *)
+Definition siglog (bm : blockmap) (n : N) : list (bytes * bytes * bytes) := map entry (blocks_of bm n).
+
+Definition Collision : Prop := exists x y, x <> y /\ Hf x = Hf y.
+Definition Forgery (log : list (bytes * bytes * bytes)) : Prop :=
+  exists p m s, registered p = true /\ sig_valid p m s = true /\ ~ In (p, m, s) log.
+
+Lemma N_seq_from_In k : forall c s, In k (N_seq_from s c) <-> s <= k < s + N.of_nat c.
+Proof.
+  induction c as [|c IH]; intros s; cbn [N_seq_from].
+  - cbn. lia.
+  - cbn [In]. rewrite IH. lia.
+Qed.
+
+Lemma blocks_of_In bm n b : In b (blocks_of bm n) <-> exists k, 1 <= k <= n /\ aget bm k = Some b.
+Proof.
+  unfold blocks_of. rewrite in_flat_map. split.
+  - intros (k & Hk & Hb). apply N_seq_from_In in Hk. exists k. split; [lia|].
+    destruct (aget bm k) as [bk|]; cbn in Hb; [destruct Hb as [->|[]]; reflexivity|contradiction].
+  - intros (k & Hk & Ek). exists k. split; [apply N_seq_from_In; lia|]. rewrite Ek. cbn. auto.
+Qed.
+
+Definition triple_eq_dec : forall x y : bytes * bytes * bytes, {x = y} + {x <> y}.
+Proof. repeat decide equality. Defined.
+
+Definition HeightsOK (bm : blockmap) (n : N) : Prop :=
+  forall k b, k <= n -> aget bm k = Some b -> h_height (b_hdr b) = k.
+
+Lemma aget_aset_ne {V} (l : list (N * V)) k v k' : k <> k' -> aget (aset l k v) k' = aget l k'.
+Proof. intros H. rewrite aget_aset. destruct (N.eqb_spec k k'); [contradiction|reflexivity]. Qed.
+Lemma aget_aset_eq {V} (l : list (N * V)) k v : aget (aset l k v) k = Some v.
+Proof. rewrite aget_aset, N.eqb_refl. reflexivity. Qed.
+
+(* ANY replacement of stored block i (1 <= i <= n) that still verifies either needs a signature the
+   validators never produced, or has the same pre-image, signature and proposer as the original *)
+Theorem forged_block bm n i b b' :
+  Linked bm n -> HeightsOK bm n -> n < U64 -> 1 <= i <= n -> aget bm i = Some b ->
+  verify_chain (aset bm i b') n = 0 ->
+  Forgery (siglog bm n) \/
+  (pre (b_hdr b') = pre (b_hdr b) /\ h_sig (b_hdr b') = h_sig (b_hdr b) /\
+   h_proposer (b_hdr b') = h_proposer (b_hdr b) /\ tx_root_ok b' = true).
+Proof.
+  intros HL HH Hn Hi Eb Hv.
+  apply verify_chain_iff in Hv; [|lia].
+  destruct Hv as (_ & _ & _ & Hall').
+  destruct (Hall' i Hi) as (b1 & p1 & E1 & E2 & E3).
+  rewrite aget_aset_eq in E1. injection E1 as <-.
+  rewrite aget_aset_ne in E2 by lia.
+  apply check1_ok in E3. destruct E3 as [F1 F2].
+  apply block_follows_ok in F1. destruct F1 as (Fh & _ & Ftr & _).
+  apply verify_sig_ok in F2. destruct F2 as (_ & Freg & Fsig).
+  assert (Hb' : h_height (b_hdr b') = i).
+  { rewrite Fh. rewrite (HH (i - 1) p1 ltac:(lia) E2). lia. }
+  destruct (in_dec triple_eq_dec (entry b') (siglog bm n)) as [Hin|Hnin].
+  - right. unfold siglog in Hin. apply in_map_iff in Hin. destruct Hin as (bk & Eent & Hbk).
+    apply blocks_of_In in Hbk. destruct Hbk as (k & Hk & Ek).
+    assert (Ep : h_proposer (b_hdr bk) = h_proposer (b_hdr b')) by exact (f_equal (fun t => fst (fst t)) Eent).
+    assert (Epre : pre (b_hdr bk) = pre (b_hdr b')) by exact (f_equal (fun t => snd (fst t)) Eent).
+    assert (Es : h_sig (b_hdr bk) = h_sig (b_hdr b')) by exact (f_equal (fun t => snd t) Eent).
+    assert (Hk2 : h_height (b_hdr bk) = k) by (apply HH; [apply Hk|exact Ek]).
+    assert (Hi64 : i < U64) by (apply N.le_lt_trans with n; [apply Hi|exact Hn]).
+    assert (Hk64 : k < U64) by (apply N.le_lt_trans with n; [apply Hk|exact Hn]).
+    assert (Hsame : h_height (b_hdr bk) = h_height (b_hdr b')).
+    { apply pre_height_inj; [rewrite Hk2; exact Hk64|rewrite Hb'; exact Hi64|exact Epre]. }
+    assert (k = i) as -> by congruence.
+    rewrite Eb in Ek. injection Ek as <-. auto.
+  - left. exists (h_proposer (b_hdr b')), (pre (b_hdr b')), (h_sig (b_hdr b')). auto.
+Qed.
+
+(* single-field mutation of a hashed header field, or of the header signature *)
+Theorem single_field_mutation bm n i b h' :
+  Linked bm n -> HeightsOK bm n -> n < U64 -> 1 <= i <= n -> aget bm i = Some b ->
+  WellSized (b_hdr b) ->
+  (mut1 (b_hdr b) h' \/ exists v, v <> h_sig (b_hdr b) /\ h' = set_sig v (b_hdr b)) ->
+  verify_chain (aset bm i (Bk h' (b_txs b) (b_sigs b))) n = 0 ->
+  Forgery (siglog bm n).
+Proof.
+  intros HL HH Hn Hi Eb HW Hm Hv.
+  destruct (forged_block bm n i b _ HL HH Hn Hi Eb Hv) as [F|(Epre & Esig & _)]; [exact F|exfalso].
+  cbn [b_hdr] in Epre, Esig. destruct Hm as [Hm|(v & Hv' & ->)].
+  - exact (mut1_pre_neq _ _ HW Hm Epre).
+  - cbn in Esig. contradiction.
+Qed.
+
+
+(* ------------------------------------------------------------------ Merkle root: equal roots of equally long lists *)
+Section Merkle.
+Hypothesis Hlen : forall x, length (Hf x) = 32%nat.
+Notation pair_up := (pair_up Hf).
+Notation merkle_fuel := (merkle_fuel Hf).
+Notation merkle_root := (merkle_root Hf).
+Definition len32 (x : bytes) : Prop := length x = 32%nat.
+
+Lemma bytes_eq_dec : forall x y : bytes, {x = y} + {x <> y}.
+Proof. repeat decide equality. Defined.
+
+Lemma hash_pair_inj a b a' b' : length a = length a' -> Hf (a ++ b) = Hf (a' ++ b') -> (a = a' /\ b = b') \/ Collision.
+Proof.
+  intros L E. destruct (bytes_eq_dec (a ++ b) (a' ++ b')) as [Eq|Ne].
+  - left. apply app_inj_len; assumption.
+  - right. exists (a ++ b), (a' ++ b'). auto.
+Qed.
+
+Lemma pair_up_inj : forall n l l', (length l <= n)%nat -> length l = length l' ->
+  Forall len32 l -> Forall len32 l' -> pair_up l = pair_up l' -> l = l' \/ Collision.
+Proof.
+  induction n as [|n IH]; intros l l' Hn HL F F' E.
+  - destruct l; [|cbn in Hn; lia]. destruct l'; [left; reflexivity|discriminate].
+  - destruct l as [|a [|b r]]; destruct l' as [|a' [|b' r']]; try discriminate.
+    + left; reflexivity.
+    + cbn in E. injection E as E. inversion F; inversion F'; subst.
+      destruct (hash_pair_inj a a a' a' ltac:(congruence) E) as [[-> _]|C]; [left; reflexivity|right; exact C].
+    + cbn [Model.pair_up] in E. injection E as E1 E2.
+      inversion F as [|? ? Fa F1]; inversion F1 as [|? ? Fb Fr]; inversion F' as [|? ? Fa' F1']; inversion F1' as [|? ? Fb' Fr']; subst.
+      destruct (hash_pair_inj a b a' b' ltac:(congruence) E1) as [[-> ->]|C]; [|right; exact C].
+      cbn in Hn, HL.
+      destruct (IH r r' ltac:(lia) ltac:(lia) Fr Fr' E2) as [->|C]; [left; reflexivity|right; exact C].
+Qed.
+
+Lemma pair_up_len32 : forall n l, (length l <= n)%nat -> Forall len32 (pair_up l).
+Proof.
+  induction n as [|n IH]; intros l Hn.
+  - destruct l; [constructor|cbn in Hn; lia].
+  - destruct l as [|a [|b r]]; cbn [Model.pair_up].
+    + constructor.
+    + constructor; [apply Hlen|constructor].
+    + constructor; [apply Hlen|]. apply IH. cbn in Hn. lia.
+Qed.
+
+Lemma pair_up_length : forall n l, (length l <= n)%nat -> length (pair_up l) = Nat.div2 (S (length l)).
+Proof.
+  induction n as [|n IH]; intros l Hn.
+  - destruct l; [reflexivity|cbn in Hn; lia].
+  - destruct l as [|a [|b r]]; cbn [Model.pair_up length]; try reflexivity.
+    rewrite IH by (cbn in Hn; lia). reflexivity.
+Qed.
+
+Lemma div2_le n : (2 <= n -> Nat.div2 (S n) <= n - 1)%nat.
+Proof.
+  intros H. pose proof (Nat.div2_odd (S n)) as Ho. destruct (Nat.odd (S n)); cbn [Nat.b2n] in Ho; lia.
+Qed.
+
+Lemma merkle_fuel_inj : forall n l l', length l = length l' -> (length l <= n)%nat ->
+  Forall len32 l -> Forall len32 l' -> merkle_fuel n l = merkle_fuel n l' -> l = l' \/ Collision.
+Proof.
+  induction n as [|n IH]; intros l l' HL Hn F F' E.
+  - destruct l; [|cbn in Hn; lia]. destruct l'; [left; reflexivity|discriminate].
+  - destruct l as [|a [|b r]]; destruct l' as [|a' [|b' r']]; try discriminate.
+    + left; reflexivity.
+    + cbn in E. left. congruence.
+    + assert (E' : merkle_fuel n (pair_up (a :: b :: r)) = merkle_fuel n (pair_up (a' :: b' :: r'))) by exact E.
+      assert (HL2 : length (pair_up (a :: b :: r)) = length (pair_up (a' :: b' :: r'))).
+      { rewrite !(pair_up_length (length (a :: b :: r))) by (rewrite <- ?HL; lia). rewrite HL. reflexivity. }
+      assert (Hn2 : (length (pair_up (a :: b :: r)) <= n)%nat).
+      { rewrite (pair_up_length (length (a :: b :: r))) by lia.
+        pose proof (div2_le (length (a :: b :: r)) ltac:(cbn; lia)). cbn [length] in *. lia. }
+      destruct (IH _ _ HL2 Hn2 (pair_up_len32 _ _ (le_n _)) (pair_up_len32 _ _ (le_n _)) E') as [Ep|C]; [|right; exact C].
+      apply (pair_up_inj (length (a :: b :: r))); auto.
+Qed.
+
+Lemma merkle_root_inj l l' : length l = length l' -> Forall len32 l -> Forall len32 l' ->
+  merkle_root l = merkle_root l' -> l = l' \/ Collision.
+Proof.
+  intros HL F F' E. unfold Model.merkle_root in E. rewrite <- HL in E.
+  apply (merkle_fuel_inj (length l)); auto.
+Qed.
+
+Hypothesis ser_inj : forall a b, ser_tx a = ser_tx b -> a = b.
+Notation tx_hash := (tx_hash Hf ser_tx).
+
+Lemma leaves_inj : forall l l', map tx_hash l = map tx_hash l' -> l = l' \/ Collision.
+Proof.
+  induction l as [|t l IH]; intros [|t' l'] E; try discriminate.
+  - left; reflexivity.
+  - cbn in E. injection E as E1 E2.
+    destruct (bytes_eq_dec (ser_tx t) (ser_tx t')) as [Es|Ns].
+    + apply ser_inj in Es. subst. destruct (IH l' E2) as [->|C]; [left; reflexivity|right; exact C].
+    + right. exists (ser_tx t), (ser_tx t'). auto.
+Qed.
+
+Lemma compute_tx_root_inj l l' : length l = length l' ->
+  compute_tx_root l = compute_tx_root l' -> l = l' \/ Collision.
+Proof.
+  intros HL E. destruct l as [|t l]; destruct l' as [|t' l']; try discriminate.
+  - left; reflexivity.
+  - unfold Model.compute_tx_root in E.
+    assert (F : forall x, Forall len32 (map tx_hash x)).
+    { intros x. apply Forall_forall. intros y Hy. apply in_map_iff in Hy. destruct Hy as (z & <- & _). apply Hlen. }
+    destruct (merkle_root_inj (map tx_hash (t :: l)) (map tx_hash (t' :: l'))) as [Em|C]; auto.
+    + rewrite !map_length. exact HL.
+    + apply leaves_inj. exact Em.
+Qed.
+
+(* the transaction list of stored block i replaced by a different list of the same length
+   (one transaction altered, transactions reordered) *)
+Theorem tx_list_mutation bm n i b l' :
+  Linked bm n -> 1 <= i <= n -> aget bm i = Some b ->
+  l' <> b_txs b -> length l' = length (b_txs b) ->
+  verify_chain (aset bm i (with_txs l' b)) n = 0 -> Collision.
+Proof.
+  intros HL Hi Eb Hne HLn Hv.
+  apply verify_chain_iff in Hv; [|lia].
+  destruct Hv as (_ & _ & _ & Hall').
+  destruct (Hall' i Hi) as (b1 & p1 & E1 & _ & E3).
+  rewrite aget_aset_eq in E1. injection E1 as <-.
+  apply check1_ok in E3. destruct E3 as [F1 _]. apply block_follows_ok in F1. destruct F1 as (_ & _ & Ftr & _).
+  destruct HL as (_ & _ & _ & Hall). destruct (Hall i Hi) as (b2 & p2 & G1 & _ & G3).
+  rewrite Eb in G1. injection G1 as <-.
+  apply check1_ok in G3. destruct G3 as [G3 _]. apply block_follows_ok in G3. destruct G3 as (_ & _ & Gtr & _).
+  unfold Model.tx_root_ok in Ftr, Gtr. cbn [with_txs b_hdr b_txs] in Ftr.
+  apply bytes_eqb_spec in Ftr, Gtr.
+  destruct (compute_tx_root_inj l' (b_txs b) HLn ltac:(congruence)) as [E|C]; [contradiction|exact C].
+Qed.
+End Merkle.
+
+(* the Merkle construction itself is malleable: a duplicated tail keeps the root, for EVERY hash *)
+Lemma merkle_duplicate_tail a b c :
+  Model.merkle_root Hf [a; b; c; c] = Model.merkle_root Hf [a; b; c].
+Proof. reflexivity. Qed.
+Lemma merkle_duplicate_tail6 a b c d e f :
+  Model.merkle_root Hf [a; b; c; d; e; f; e; f] = Model.merkle_root Hf [a; b; c; d; e; f].
+Proof. reflexivity. Qed.
+
+(* ------------------------------------------------------------------ genesis, removal, reorder, unauthenticated fields *)
+(* the genesis record is held only by block 1's predecessor hash *)
+Theorem genesis_mutation bm n g g' :
+  Linked bm n -> 1 <= n -> aget bm 0 = Some g ->
+  pre (b_hdr g') <> pre (b_hdr g) ->
+  verify_chain (aset bm 0 g') n = 0 -> Collision.
+Proof.
+  intros HL Hn Eg Hne Hv.
+  apply verify_chain_iff in Hv; [|lia].
+  destruct Hv as (_ & _ & _ & Hall').
+  destruct (Hall' 1 ltac:(lia)) as (b1 & p1 & E1 & E2 & E3).
+  rewrite aget_aset_ne in E1 by lia. change (1 - 1) with 0 in E2. rewrite aget_aset_eq in E2. injection E2 as <-.
+  destruct HL as (_ & _ & _ & Hall). destruct (Hall 1 ltac:(lia)) as (b2 & p2 & G1 & G2 & G3).
+  change (1 - 1) with 0 in G2. rewrite Eg in G2. injection G2 as <-. rewrite E1 in G1. injection G1 as <-.
+  apply check1_ok in E3, G3. destruct E3 as [E3 _]. destruct G3 as [G3 _].
+  apply block_follows_ok in E3, G3. destruct E3 as (_ & Ep & _). destruct G3 as (_ & Gp & _).
+  exists (pre (b_hdr g')), (pre (b_hdr g)). split; [exact Hne|]. unfold Model.hhash in *. congruence.
+Qed.
+
+Theorem removed_block_detected bm n i : 1 <= n -> i <= n -> verify_chain (adel bm i) n <> 0.
+Proof.
+  intros Hn Hi Hv. apply verify_chain_iff in Hv; [|lia].
+  destruct Hv as (g & Eg & _ & Hall).
+  destruct (N.eq_dec i 0) as [->|Hne].
+  - rewrite aget_adel, N.eqb_refl in Eg. discriminate.
+  - destruct (Hall i ltac:(lia)) as (b & _ & E & _). rewrite aget_adel, N.eqb_refl in E. discriminate.
+Qed.
+
+Theorem swapped_blocks_detected bm n i j bi bj :
+  HeightsOK bm n -> i < j <= n -> aget bm i = Some bi -> aget bm j = Some bj ->
+  verify_chain (aset (aset bm i bj) j bi) n <> 0.
+Proof.
+  intros HH Hij Ei Ej Hv. apply verify_chain_iff in Hv; [|lia].
+  destruct Hv as (_ & _ & _ & Hall).
+  destruct (Hall j ltac:(lia)) as (b & p & E1 & E2 & E3).
+  rewrite aget_aset_eq in E1. injection E1 as <-.
+  apply check1_ok in E3. destruct E3 as [E3 _]. apply block_follows_ok in E3. destruct E3 as (Eh & _).
+  rewrite (HH i bi ltac:(lia) Ei) in Eh.
+  rewrite aget_aset_ne in E2 by lia.
+  destruct (N.eq_dec (j - 1) i) as [Eji|Nji].
+  - rewrite Eji, aget_aset_eq in E2. injection E2 as <-. rewrite (HH j bj ltac:(lia) Ej) in Eh. lia.
+  - rewrite aget_aset_ne in E2 by lia. rewrite (HH (j - 1) p ltac:(lia) E2) in Eh. lia.
+Qed.
+
+(* verify_chain never looks at Block.signatures *)
+Lemma check1_sigs b p l l' : check1 (with_sigs l b) (with_sigs l' p) = check1 b p.
+Proof. reflexivity. Qed.
+
+Definition same_auth (b b' : block) : Prop := b_hdr b = b_hdr b' /\ b_txs b = b_txs b'.
+Lemma check1_same_auth b b' p p' : same_auth b b' -> same_auth p p' -> check1 b p = check1 b' p'.
+Proof.
+  intros [H1 H2] [H3 H4]. unfold check1, Model.block_follows, Model.tx_root_ok. rewrite H1, H2, H3. reflexivity.
+Qed.
+
+Lemma verify_from_same_auth bm bm' :
+  (forall k, match aget bm k, aget bm' k with
+             | Some b, Some b' => same_auth b b' | None, None => True | _, _ => False end) ->
+  forall n prev prev' h, same_auth prev prev' -> verify_from bm prev h n = verify_from bm' prev' h n.
+Proof.
+  intros Hrel. induction n as [|n IH]; intros prev prev' h Hp; [reflexivity|].
+  rewrite !verify_from_S. specialize (Hrel h) as Hh.
+  destruct (aget bm h) as [b|]; destruct (aget bm' h) as [b'|]; try contradiction; [|reflexivity].
+  rewrite (check1_same_auth b b' prev prev' Hh Hp). destruct (negb (N.eqb (check1 b' prev') 0)); [reflexivity|].
+  apply IH. exact Hh.
+Qed.
+
+Theorem block_signatures_unauthenticated bm n i b l :
+  aget bm i = Some b -> verify_chain (aset bm i (with_sigs l b)) n = verify_chain bm n.
+Proof.
+  intros Eb. unfold Model.verify_chain. destruct (N.eqb n 0); [reflexivity|].
+  assert (Hrel : forall k, match aget (aset bm i (with_sigs l b)) k, aget bm k with
+             | Some x, Some x' => same_auth x x' | None, None => True | _, _ => False end).
+  { intros k. rewrite aget_aset. destruct (N.eqb_spec i k) as [<-|Hne].
+    - rewrite Eb. split; reflexivity.
+    - destruct (aget bm k); [split; reflexivity|exact I]. }
+  specialize (Hrel 0) as H0.
+  destruct (aget (aset bm i (with_sigs l b)) 0) as [g'|]; destruct (aget bm 0) as [g|]; try contradiction; [|reflexivity].
+  assert (Etr : tx_root_ok g' = tx_root_ok g).
+  { destruct H0 as [H1 H2]. unfold Model.tx_root_ok. rewrite H1, H2. reflexivity. }
+  rewrite Etr. destruct (f_genesis_txroot fl && negb (tx_root_ok g)); [reflexivity|].
+  apply verify_from_same_auth; assumption.
+Qed.
+
 End Proofs.
